@@ -813,6 +813,7 @@ impl World {
         let extra = crate::oracles::commit_extras(self, p, g, spec)?;
         let pre = crate::oracles::before_op(self, p, g, "commit")?;
         crypto::rec_set_phase(self.step_no as u64);
+        let _ = crypto::rec_take_events();
         let cached_refs: Vec<u64> = self.parties[p].mems[g].cached.iter().copied().collect();
         let spec2 = spec.clone();
         let res = crate::oracles::lib_call(self, p, Some(g), "commit", |w| {
@@ -927,6 +928,7 @@ impl World {
                     short_hash(&msg.bytes)
                 ));
                 self.stats.result("commit:ok");
+                self.ext.commit_has_path.insert(id, out.contains_update_path);
                 if out.contains_update_path {
                     self.stats.probe("commit-with-path");
                 } else {
@@ -1182,6 +1184,7 @@ impl World {
             cands.len(),
             msg.sender
         ));
+        crate::oracles::feed_removed(self, g, win)?;
         // welcomes go out
         for (q, wb) in &msg.welcomes {
             let m = self.mem(*q, g);
@@ -2036,6 +2039,7 @@ impl World {
                     time: self.clock,
                 };
                 self.msgs.insert(id, msg);
+                self.ext.commit_has_path.insert(id, true);
                 self.mem(p, g).ext_pending = Some((group, id));
                 self.groups[g].candidates.entry(latest).or_default().push(id);
                 crate::oracles::after_ext_commit_built(self, p, g, id)?;
